@@ -202,6 +202,9 @@ def integrate_spin(expr: Expr, target_idx: str, target_spin: str) -> Expr:
                 break
         if term_vanishes:
             continue
+        if not term_spin_idx_maps:
+            # none of the objects restricts the spin of any index
+            combinations = [{"a": set(), "b": set()}]
 
         # - iterate over the unique combinations, replace the spin orbitals
         #   by the corresponding spatial orbitals (assign a spin to the
